@@ -253,7 +253,9 @@ _c07 = {"UNITS": [], "VX_NO_REUSE": True, "__name__": "c07_reuse"}
 if not globals().get("VX_NO_REUSE"):     # reuse is never transitive: the other spec is loaded without ITS reuse blocks (no cycles)
     exec(compile(open("/verif/specs/C07/spec.py").read(), "/verif/specs/C07/spec.py", "exec"), _c07)
 for _u in _c07["UNITS"]:
-    if _u.name in ("cv.wait", "cv.wait_until", "cv.notify_one", "cv.notify_all", "cv.abort_all"):
+    # agent.da.*: a plain OS thread blocked in lock() suspends / is resumed through default_agent (same reason as in C08 / C09)
+    if _u.name in ("cv.wait", "cv.wait_until", "cv.notify_one", "cv.notify_all", "cv.abort_all",
+                   "agent.da.ctor", "agent.da.suspend", "agent.da.resume", "agent.da.abort", "agent.da.lemma.rely_guarantee", "agent.da.lemma.suspend_resume"):
         _u.name = "c07." + _u.name
         _u.template = "../C07/" + _u.template
         UNITS.append(_u)
